@@ -33,7 +33,7 @@ struct def_rtti : policy::deferred_static_rtti {
 };
 struct P : policy::basic_policy<P, def_rtti> {};
 
-static class_info cA, cB, cC;
+static class_info cA, cB, cC, cB2;   // cB2: class B registered a second time (another module), same shared base list
 static type_id basesA[2], basesB[3], basesC[1];  // ids + flag word; C is registered without bases
 static method_info meth;
 static type_id mvp[ARITY + 1];
@@ -51,7 +51,8 @@ extern "C" void cbmc_main() {
     cA.type = (type_id)&genA; basesA[0] = (type_id)&genA; basesA[1] = 0; cA.first_base = basesA; cA.last_base = basesA + 1;
     cB.type = (type_id)&genB; basesB[0] = (type_id)&genB; basesB[1] = (type_id)&genA; basesB[2] = 0; cB.first_base = basesB; cB.last_base = basesB + 2;
     cC.type = (type_id)&genC; cC.first_base = nullptr; cC.last_base = nullptr;  // as type_id_list<Policy, types<>>: no bases, no flag word
-    P::classes.push_back(cA); P::classes.push_back(cB); P::classes.push_back(cC);
+    cB2.type = (type_id)&genB; cB2.first_base = basesB; cB2.last_base = basesB + 2;
+    P::classes.push_back(cA); P::classes.push_back(cB); P::classes.push_back(cC); P::classes.push_back(cB2);
     for (int p = 0; p < ARITY; p++) { mvp[p] = gen_of(mk[p]); d0vp[p] = gen_of(k0[p]); d1vp[p] = gen_of(k1[p]); }
     mvp[ARITY] = 0; d0vp[ARITY] = 0; d1vp[ARITY] = 0;
     meth.vp_begin = mvp; meth.vp_end = mvp + ARITY;
@@ -63,7 +64,7 @@ extern "C" void cbmc_main() {
         compiler<P> comp;
         comp.resolve_static_type_ids();
         // after every update every id is the class's id
-        verif_assert(cA.type == (type_id)&tagA && cB.type == (type_id)&tagB && cC.type == (type_id)&tagC, 1);
+        verif_assert(cA.type == (type_id)&tagA && cB.type == (type_id)&tagB && cC.type == (type_id)&tagC && cB2.type == (type_id)&tagB, 1);
         verif_assert(basesA[0] == (type_id)&tagA && basesB[0] == (type_id)&tagB && basesB[1] == (type_id)&tagA, 2);
         for (int p = 0; p < ARITY; p++) {
             verif_assert(mvp[p] == id_of(mk[p]), 3);
